@@ -406,7 +406,8 @@ impl<P: Prop> Part<P> {
                         let cand = tree.current();
                         let mut st2 = CaseStats::default();
                         match run_check(p, &cand, &mut st2) {
-                            Err(f2) if self.reportable(env, &f2) => {
+                            // keep the root cause: only candidates failing with the same signature count
+                            Err(f2) if self.reportable(env, &f2) && f2.sig == f.sig => {
                                 best = cand;
                                 best_fail = f2;
                                 break;
@@ -602,8 +603,13 @@ pub fn run_property(prop: &Property, env: &RunEnv) -> RunOutcome {
                 break;
             }
             let rep = part.run(env);
-            violations.extend(rep.violations.iter().cloned());
+            // one (the first reported) violation per part is enough; later parts are skipped
+            violations.extend(rep.violations.iter().take(1).cloned());
+            let failed = !rep.violations.is_empty();
             all.push(rep);
+            if failed {
+                break;
+            }
         }
     }
 
